@@ -227,6 +227,59 @@ func (c *setCtx) randMat(rng *rand.Rand, kind string, small int64) mat {
 	return m
 }
 
+// permDiags draws, for every slot, at most one of the diagonals ks (so every slot receives from one slot) with a
+// scaling factor, and lets the library's Permutation.GetDiagonals build the diagonals.
+func (c *setCtx) permDiags(rng *rand.Rand, ks []int) (map[int]mat, []ev) {
+	var perm []ev
+	var bperm bgvlt.Permutation[uint64]
+	var cperm ckkslt.Permutation[complex128]
+	for r := 0; r < c.rows; r++ {
+		for to := 0; to < c.h; to++ {
+			if len(ks) == 0 || (rng.Intn(4) == 0 && !(r == c.rows-1 && to == c.h-1 && len(perm) == 0)) {
+				continue
+			}
+			k := ks[rng.Intn(len(ks))]
+			from := ((to+k)%c.h + c.h) % c.h
+			if c.scheme == "bgv" {
+				sc := 1 + rng.Uint64()%(c.T-1)
+				bperm[r] = append(bperm[r], bgvlt.PermutationMapping[uint64]{From: from, To: to, Scaling: sc})
+				perm = append(perm, ev{"r": r, "from": from, "to": to, "sc": [2]int64{int64(sc), 0}})
+			} else {
+				re, im := rng.Int63n(7)-3, rng.Int63n(7)-3
+				if c.real {
+					im = 0
+				}
+				if re == 0 && im == 0 {
+					re = 1
+				}
+				cperm = append(cperm, ckkslt.PermutationMapping[complex128]{From: from, To: to, Scaling: complex(float64(re), float64(im))})
+				perm = append(perm, ev{"r": r, "from": from, "to": to, "sc": [2]int64{re, im}})
+			}
+		}
+	}
+	dm := map[int]mat{}
+	if c.scheme == "bgv" {
+		for k, v := range bperm.GetDiagonals(c.logd.Cols + 1) {
+			m := c.newMat()
+			for r := range m {
+				for j := range m[r] {
+					m[r][j] = [2]int64{int64(v[r*c.h+j]), 0}
+				}
+			}
+			dm[k] = m
+		}
+	} else {
+		for k, v := range cperm.GetDiagonals(c.logd.Cols) {
+			m := c.newMat()
+			for j := range m[0] {
+				m[0][j] = [2]int64{int64(real(v[j])), int64(imag(v[j]))}
+			}
+			dm[k] = m
+		}
+	}
+	return dm, perm
+}
+
 func (c *setCtx) bgvVec(m mat) []uint64 {
 	v := make([]uint64, c.rows*c.h)
 	for r := range m {
@@ -320,6 +373,8 @@ func (c *setCtx) run(sc scen, rng *rand.Rand) []ev {
 		Ratio int   `json:"ratio"`
 		N1    int   `json:"n1"`
 		Sc    int64 `json:"sc"`
+		Perm  []ev  `json:"perm"`
+		IsPerm bool `json:"isperm"`
 	}
 	var mats []matRec
 	var lts []ltAny
@@ -330,17 +385,34 @@ func (c *setCtx) run(sc scen, rng *rand.Rand) []ev {
 	for i, mc := range sc.Mats {
 		dm := map[int]mat{}
 		var drec []ev
-		for _, k := range mc.Ks {
-			kind := sc.Kind
-			d := c.randMat(rng, kind, 3)
-			dm[k] = d
-			drec = append(drec, ev{"k": k, "v": d})
+		var perm []ev
+		if sc.Kind == "perm" {
+			// a slot mapping restricted to the chosen diagonals, turned into diagonals by Permutation.GetDiagonals
+			dm, perm = c.permDiags(rng, mc.Ks)
+			mc.Ks = mc.Ks[:0:0]
+			for k := range dm {
+				mc.Ks = append(mc.Ks, k)
+			}
+			sort.Ints(mc.Ks)
+			for _, k := range mc.Ks {
+				drec = append(drec, ev{"k": k, "v": dm[k]})
+			}
+		} else {
+			for _, k := range mc.Ks {
+				kind := sc.Kind
+				d := c.randMat(rng, kind, 3)
+				dm[k] = d
+				drec = append(drec, ev{"k": k, "v": d})
+			}
 		}
 		lvlAct := mc.Lvl
 		if cur < lvlAct {
 			lvlAct = cur
 		}
-		rec := matRec{Diags: drec, Lvl: mc.Lvl, Ratio: mc.Ratio}
+		rec := matRec{Diags: drec, Lvl: mc.Lvl, Ratio: mc.Ratio, Perm: perm, IsPerm: sc.Kind == "perm"}
+		if rec.Perm == nil {
+			rec.Perm = []ev{}
+		}
 		var one ltAny
 		err, pan, msg := guarded(func() error {
 			if c.scheme == "bgv" {
@@ -592,7 +664,7 @@ func sample(rng *rand.Rand, def setDef, quick bool) scen {
 		return ks
 	}
 	modes := []string{"single", "new", "many", "manynew", "seq", "seqnew"}
-	sc := scen{Set: def.Name, H: h, Mode: modes[rng.Intn(len(modes))], LvlP: rng.Intn(def.NP), Kind: []string{"random", "random", "ones", "sparse"}[rng.Intn(4)]}
+	sc := scen{Set: def.Name, H: h, Mode: modes[rng.Intn(len(modes))], LvlP: rng.Intn(def.NP), Kind: []string{"random", "random", "ones", "sparse", "perm", "perm"}[rng.Intn(6)]}
 	n := 1
 	if sc.Mode != "single" && sc.Mode != "new" {
 		n = 2 + rng.Intn(2)
